@@ -585,13 +585,31 @@ def _c15_worker(args):
         for direction in DIRECTIONS:
             rng = SplitMix.derive(seedv, "c15", idx)
             meta_names = rng.chance(1, 2)
-            case = gen_case(rng, direction, {"clash": False, "alphabet": ["a", "b", "*", "?", ".", "-"] if meta_names else None, "max_files": 10})
+            case = gen_case(rng, direction, {"clash": False, "alphabet": ["a", "b", "*", "?", ".", "-", "é", "日"] if meta_names else None, "max_files": 10})
             fl = case["flags"]
             # exclude-heavy: make sure there is at least one pattern in 3 of 4 cases
             if not fl["excludes"] and rng.chance(3, 4):
                 names = sorted(set(case["src"]) | set(case["dst"]))
                 b = rng.pick(names).split("/")[-1]
                 fl["excludes"] = [rng.pick([b, "*" + b[-1:], b[:1] + "*", "?" * len(b), "*.tmp", "*"])]
+            if idx % 4 == 3:
+                # extension-like family: `*.ext` against names that ARE the extension, multi-dot suffixes, ...
+                names = rng.shuffle([".bak", "x.bak", "d/.bak", "a.tar.gz", ".tar.gz", "b.gz", "-.bak", "s*.bak", "d/e.d.ts", "access.log", "process.log", "jobs.log", "a..tmp", "é.log", "日.bak", "aab", "..a"])[: rng.range(3, 8)]
+                case["src"], case["dst"] = {}, {}
+                for nm in names:
+                    data = rng.bytes(rng.range(0, 40))
+                    st = rng.pick(["src", "src", "both-diff", "dst-only", "dst-only"])
+                    if st in ("src", "both-diff"):
+                        case["src"][nm] = (data, (1_700_000_000, 0))
+                    if st == "both-diff":
+                        case["dst"][nm] = (data + b"+", (1_600_000_000, 0))
+                    if st == "dst-only":
+                        case["dst"][nm] = (data, (1_600_000_000, 0))
+                if not case["src"]:
+                    case["src"]["keep"] = (b"k", (1_700_000_000, 0))
+                fl["excludes"] = rng.shuffle(["*.bak", "*.tar.gz", "*.gz", ".bak", "?.bak", "*.*", "*s.log", "*.d.ts", "?.log", "*.tmp", "*ab", "*.a", "d/*.bak"])[: rng.range(1, 3)]
+                fl["delete"] = rng.chance(2, 3)
+                case["dst_exists"] = True
             ow = OneWay(os.path.join(wroot, "w%d" % lo), case)
             label = {"case": idx, "direction": direction, "flags": fl}
             srcm, src0 = ow.meta("src")
@@ -682,7 +700,7 @@ def _c15_worker(args):
 def c15(tier):
     import bisync
     build("cli", "shim", "vh")
-    r = Result("C15", "exploration", "sync part: one evaluation = one (trees, exclude list, flags, direction): `--dry-run` must leave source, destination and $HOME byte/mtime/ctime/inode-identical, make no mutating libc call, and print exactly the model's `send`/`delete` lines (whole-text comparison); the real run from the same state must perform exactly those sends and deletes (snapshots; rename/unlink targets in the trace for local/pull); excluded destination files are never modified or deleted, excluded source files never created, nothing is removed without --delete; half of the cases use file names over {a,b,*,?,.,-}; bisync part: dry run leaves trees and archive bytes identical and its action lines equal the real run's effects; distinct non-trivial = cases with an excluded destination file or a non-empty plan, by (direction, flags, plan size class)")
+    r = Result("C15", "exploration", "sync part: one evaluation = one (trees, exclude list, flags, direction): `--dry-run` must leave source, destination and $HOME byte/mtime/ctime/inode-identical, make no mutating libc call, and print exactly the model's `send`/`delete` lines (whole-text comparison); the real run from the same state must perform exactly those sends and deletes (snapshots; rename/unlink targets in the trace for local/pull); excluded destination files are never modified or deleted, excluded source files never created, nothing is removed without --delete; half of the cases use file names over {a,b,*,?,.,-,é,日}; bisync part: dry run leaves trees and archive bytes identical and its action lines equal the real run's effects; distinct non-trivial = cases with an excluded destination file or a non-empty plan, by (direction, flags, plan size class)")
     th = tier == "thorough"
     fold(r, run_pool(_c15_worker, seed(), 2500 if th else 130, "c15"))
     bisync.fold(r, bisync.run_pool(bisync._c15b_worker, seed(), 2000 if th else 120, "c15b"))
